@@ -279,6 +279,43 @@ def run(ctx):
                        derived=str({k: T.show(v, 50) for k, v in got.items()}))
             ctx.absorb(it2)
 
+    # forcing type: every entry point that estimates the roughness length itself must solve it for the caller's
+    # forcing (U10 or friction velocity) - the same one the kernel is then evaluated with
+    gq = WB + "generation.WindGeneration"
+    gcls = p.get_class(gq)
+    kern_of = {"rate": "generation._wind_generation", "bulk_rate": "generation._bulk_wind_generation",
+               "stress": "stress._wave_supported_stress", "tail_stress": "stress._tail_supported_stress"}
+    nforward = 0
+    for mname, kernel in kern_of.items():
+        m = p.get_method(gq, mname)
+        kq = WB + kernel
+        it3 = spec_interp(p, {kq: "kernel", WB + "source_term._numba_parameters": "numba_parameters",
+                              WB + "source_term._spectral_grid": "spectral_grid", gq + ".roughness": "roughness"})
+        me = Obj(gcls, {"_wind_source_term_function": P("registered_fn"), "_tail_stress_parametrization_function": P("tail_fn"),
+                        "_parameters": {"k": P("v")}}, "term")
+        spec = spectrum_self(p, CLS_2D)
+        wt = P("wind_speed_input_type")
+        r = it3.call_function(m, [me, spec, P("speed"), P("direction"), NONE_T, wt], {}, None)
+        ks = _find_in_value(r, "kernel")
+        if len(ks) != 1:
+            ctx.unsure("R08.3", f"WindGeneration.{mname}[forcing type]", "kernel call not found", m.loc())
+            continue
+        kf = p.get_function(kq)
+        got = dict(zip(kf.params, ks[0].args))
+        rcalls = T.find_ops(got.get("roughness_length"), "roughness")
+        wind_t = got.get("wind")
+        rparams = p.get_method(gq, "roughness").params
+        ok = len(rcalls) == 1 and isinstance(wind_t, sp.Tuple) and len(wind_t) == 3 and wind_t[2] == wt
+        if ok:
+            rb = dict(zip(rparams, rcalls[0].args))
+            ok = rb.get("wind_speed_input_type") == wt and rb.get("speed") == P("speed") and rb.get("direction") == P("direction")
+        nforward += 1
+        ctx.expect(ok, "R08.3", f"WindGeneration.{mname}[forcing type]",
+                   "when the roughness length is estimated by the library it is solved for the caller's speed, direction and forcing "
+                   "type, and the kernel is evaluated with that same forcing type", m.loc(),
+                   derived=str({"wind": T.show(wind_t, 80), "roughness_length": T.show(got.get("roughness_length"), 120)}))
+        ctx.absorb(it3)
+
     # ------------------------------------------------------------------ R08.4 imbalance
     bal_q = WB + "balance.SourceTermBalance"
     it3 = Interp(p, opaque={WB + "generation.WindGeneration.rate": "gen_rate", WB + "dissipation.Dissipation.rate": "dis_rate",
@@ -323,12 +360,39 @@ def run(ctx):
     ])
     ctx.require_count("R08.1", 12)
     ctx.require_count("R08.2", 7)
-    ctx.require_count("R08.3", 10)
+    ctx.require_count("R08.3", 14)
     ctx.require_count("R08.4", 3)
     ctx.require_count("R08.5", 10)
 
 
 # ---------------------------------------------------------------------------- batch loops
+def _find_in_value(v, name):
+    """kernel calls inside an interpreter value (term, tuple, list, dataset, DataArray model)"""
+    out = []
+    seen = set()
+
+    def walk(x):
+        if id(x) in seen:
+            return
+        seen.add(id(x))
+        if isinstance(x, sp.Basic):
+            for o in T.find_ops(x, name):
+                if o not in out:
+                    out.append(o)
+            return
+        if isinstance(x, (list, tuple)):
+            for y in x:
+                walk(y)
+        elif isinstance(x, dict):
+            for y in x.values():
+                walk(y)
+        elif hasattr(x, "__dict__"):
+            for y in vars(x).values():
+                walk(y)
+    walk(v)
+    return out
+
+
 def batch_independence(ctx, rule, quals):
     """Each per-point loop: outputs stored at the loop index in the leading axis, per-point inputs read only at the
     loop index, no scalar carried from one iteration to the next, no shared buffer handed to a callee."""
